@@ -73,6 +73,10 @@ def run(ctx):
     r144(ctx)
     r146(ctx)
     r147_uniform_bounds(ctx)
+    from ..statrules import shared_class_state
+    shared_class_state(ctx, 'R14.8', sorted(c for c, ci in ctx.prog.classes.items() if ci.module.name == 'distributions'),
+                       'what one distribution instance caches (a spare gaussian, a helper distribution) is consumed by every other instance: draws no longer depend '
+                       'only on the instance\'s own parameters and stream')
 
 
 def r141(ctx, dists):
@@ -285,7 +289,9 @@ def r143(ctx, dists):
             kc = prog.classes.get(k)
             if kc is not None and '_set_stream' in kc.methods:
                 for st in walk_shallow(kc.methods['_set_stream']):
-                    if isinstance(st, (ast.Assign, ast.AnnAssign)) and getattr(st, 'value', None) is not None and isinstance(st.value, ast.Constant):
+                    if isinstance(st, (ast.Assign, ast.AnnAssign)) and getattr(st, 'value', None) is not None and (
+                            isinstance(st.value, ast.Constant) or (isinstance(st.value, (ast.List, ast.Tuple, ast.Set)) and not st.value.elts)
+                            or (isinstance(st.value, ast.Dict) and not st.value.keys)):
                         reset |= {t.attr for t in (st.targets if isinstance(st, ast.Assign) else [st.target]) if is_self_attr(t)}
         for f in sorted(carried):
             n += 1
@@ -312,7 +318,7 @@ def r143(ctx, dists):
                 ctx.finding('R14.3', f'{c}:{f}:not-invalidated', ci, ci.node,
                             f'{c}.{f} carries a value from one draw to the next and is not invalidated by _set_stream: after pointing the distribution at another stream the next '
                             f'draw still depends on the old stream', where=c)
-    ctx.floor('R14.3', 'draw-carried fields', n, 2)
+    ctx.floor('R14.3', 'draw-carried fields', n, 1)
 
 
 def r144(ctx):
@@ -327,6 +333,11 @@ def r144(ctx):
             n += 1
             cv = const_value(v)
             ok = cv is not NOCONST and isinstance(cv, (int, float, str, bool, tuple, type(None), frozenset))
+            if not ok:
+                # a container that no method changes in place (instances only ever re-bind the name) cannot carry anything between them
+                from ..statrules import instance_mutation_sites
+                ok = not instance_mutation_sites(prog, c, name) and isinstance(v, (ast.List, ast.Dict, ast.Set, ast.Tuple)) \
+                    and not (v.elts if not isinstance(v, ast.Dict) else v.keys)
             ctx.ob('R14.4', f'{c}.{name}', ok, sample=f'{c}.{name} = {short(v, 40)}')
             if not ok:
                 ctx.finding('R14.4', f'{c}.{name}:mutable-class-attribute', ci, st, f'class attribute {c}.{name} = {short(v, 40)} is shared mutable state: instances can influence each other', where=c)
